@@ -1,15 +1,721 @@
-//! Engine `vacuum` — not built yet (stub).
+//! Engine `vacuum` (C13): histories with VACUUM at arbitrary points (and optional reopen) through the public API
+//! (`Database::create/open/execute/execute_batch/session/vacuum`) against `Model/Db.lean` + `Model/Vacuum.lean`.
+//! Case syntax: see `cfg/C13.py`.  The session / statement syntax is the one of engine `hist`; the parsing and
+//! canonicalisation code is a private copy (engine `hist` belongs to C03/C04 and changes independently).
 use super::{Case, Engine, Tier};
 use crate::rng::Rng;
+use axmosdb::runtime::QueryResult;
+use axmosdb::tcp::session::Session;
+use axmosdb::{DBConfig, DataType, Database};
+use std::collections::{BTreeMap, BTreeSet};
+use std::sync::atomic::{AtomicU64, Ordering};
 
 pub struct VacuumEngine;
+
+// ------------------------------------------------------------------------------------------------ case syntax
+
+#[derive(Clone, Debug, PartialEq)]
+enum Val {
+    Int(i64),
+    Null,
+    Text(String),
+}
+
+#[derive(Clone, Debug)]
+struct Col {
+    name: String,
+    ty: String, // big | int | text
+    not_null: bool,
+    unique: bool,
+}
+
+#[derive(Clone, Debug)]
+struct Table {
+    name: String,
+    cols: Vec<Col>,
+}
+
+#[derive(Clone, Debug)]
+struct Pred {
+    col: String,
+    op: String, // eq ne lt le gt ge
+    val: Val,
+}
+
+#[derive(Clone, Debug)]
+enum Stmt {
+    Sel { table: String, pred: Option<Pred> },
+    Ins { table: String, rows: Vec<Vec<Val>> },
+    Upd { table: String, col: String, add: bool, val: Val, pred: Option<Pred> },
+    Del { table: String, pred: Option<Pred> },
+}
+
+#[derive(Clone, Debug)]
+enum Op {
+    Begin(String),
+    Commit(String),
+    Rollback(String),
+    Drop(String),
+    Exec(String, Stmt),
+    Auto(Stmt),
+    Batch(Vec<Stmt>),
+    /// `vac`: Database::vacuum
+    Vac,
+    /// `vacchk`: SELECT * of every table, Database::vacuum, SELECT * of every table; the two must agree
+    VacChk,
+    /// `reopen`: every open session is dropped, the Database handle is dropped, Database::open
+    Reopen,
+}
+
+#[derive(Clone, Debug)]
+struct Setup {
+    tables: Vec<Table>,
+    rows: Vec<(String, Vec<Val>)>,
+    fresh: bool,
+}
+
+fn parse_val(s: &str) -> Option<Val> {
+    if s == "null" {
+        return Some(Val::Null);
+    }
+    if s.len() >= 2 && s.starts_with('\'') && s.ends_with('\'') {
+        let body = &s[1..s.len() - 1];
+        if body.chars().all(|c| c.is_ascii_lowercase()) {
+            return Some(Val::Text(body.to_string()));
+        }
+        return None;
+    }
+    let n: i64 = s.parse().ok()?;
+    if n.to_string() != s || n.abs() > 1_000_000_000 {
+        return None;
+    }
+    Some(Val::Int(n))
+}
+
+fn ident(s: &str) -> bool {
+    !s.is_empty() && s.chars().all(|c| c.is_ascii_lowercase() || c.is_ascii_digit()) && s.chars().next().unwrap().is_ascii_lowercase()
+}
+
+fn parse_table(spec: &str) -> Option<Table> {
+    let (name, rest) = spec.split_once('(')?;
+    let rest = rest.strip_suffix(')')?;
+    if !ident(name) {
+        return None;
+    }
+    let mut cols = Vec::new();
+    for c in rest.split(',') {
+        let (cn, ty) = c.split_once(':')?;
+        let mut ty = ty.to_string();
+        let mut not_null = false;
+        let mut unique = false;
+        loop {
+            if let Some(t) = ty.strip_suffix('!') {
+                not_null = true;
+                ty = t.to_string();
+            } else if let Some(t) = ty.strip_suffix('*') {
+                unique = true;
+                ty = t.to_string();
+            } else {
+                break;
+            }
+        }
+        if !ident(cn) || !matches!(ty.as_str(), "big" | "int" | "text") {
+            return None;
+        }
+        cols.push(Col { name: cn.to_string(), ty, not_null, unique });
+    }
+    if cols.is_empty() {
+        return None;
+    }
+    Some(Table { name: name.to_string(), cols })
+}
+
+fn parse_setup(s: &str) -> Option<Setup> {
+    let mut st = Setup { tables: vec![], rows: vec![], fresh: false };
+    for w in s.split_whitespace() {
+        if w == "fresh" {
+            st.fresh = true;
+        } else if let Some(t) = w.strip_prefix("tab=") {
+            st.tables.push(parse_table(t)?);
+        } else if let Some(r) = w.strip_prefix("row=") {
+            let (t, vs) = r.split_once(':')?;
+            let vals: Option<Vec<Val>> = vs.split(',').map(parse_val).collect();
+            st.rows.push((t.to_string(), vals?));
+        } else {
+            return None;
+        }
+    }
+    Some(st)
+}
+
+fn parse_pred(ws: &[&str]) -> Option<Option<Pred>> {
+    match ws {
+        [] => Some(None),
+        ["where", col, op, val] => {
+            if !ident(col) || !matches!(*op, "eq" | "ne" | "lt" | "le" | "gt" | "ge") {
+                return None;
+            }
+            Some(Some(Pred { col: col.to_string(), op: op.to_string(), val: parse_val(val)? }))
+        }
+        _ => None,
+    }
+}
+
+fn parse_stmt(ws: &[&str]) -> Option<Stmt> {
+    match ws {
+        ["sel", t, rest @ ..] if ident(t) => Some(Stmt::Sel { table: t.to_string(), pred: parse_pred(rest)? }),
+        ["del", t, rest @ ..] if ident(t) => Some(Stmt::Del { table: t.to_string(), pred: parse_pred(rest)? }),
+        ["upd", t, col, how, val, rest @ ..] if ident(t) && ident(col) && (*how == "set" || *how == "add") => Some(Stmt::Upd {
+            table: t.to_string(),
+            col: col.to_string(),
+            add: *how == "add",
+            val: parse_val(val)?,
+            pred: parse_pred(rest)?,
+        }),
+        ["ins", t, rest @ ..] if ident(t) && !rest.is_empty() => {
+            let mut rows = Vec::new();
+            for r in rest.split(|w| *w == ",") {
+                if r.is_empty() {
+                    return None;
+                }
+                let vals: Option<Vec<Val>> = r.iter().map(|v| parse_val(v)).collect();
+                rows.push(vals?);
+            }
+            Some(Stmt::Ins { table: t.to_string(), rows })
+        }
+        _ => None,
+    }
+}
+
+fn sess_name(s: &str) -> bool {
+    s.len() >= 2 && s.starts_with('s') && s[1..].chars().all(|c| c.is_ascii_digit())
+}
+
+fn parse_op(s: &str) -> Option<Op> {
+    let ws: Vec<&str> = s.split_whitespace().collect();
+    match ws.as_slice() {
+        ["vac"] => Some(Op::Vac),
+        ["vacchk"] => Some(Op::VacChk),
+        ["reopen"] => Some(Op::Reopen),
+        ["db", "batch", rest @ ..] => {
+            let mut stmts = Vec::new();
+            for part in rest.split(|w| *w == "&") {
+                stmts.push(parse_stmt(part)?);
+            }
+            Some(Op::Batch(stmts))
+        }
+        ["db", rest @ ..] => Some(Op::Auto(parse_stmt(rest)?)),
+        [s, "begin"] if sess_name(s) => Some(Op::Begin(s.to_string())),
+        [s, "commit"] if sess_name(s) => Some(Op::Commit(s.to_string())),
+        [s, "rollback"] if sess_name(s) => Some(Op::Rollback(s.to_string())),
+        [s, "drop"] if sess_name(s) => Some(Op::Drop(s.to_string())),
+        [s, rest @ ..] if sess_name(s) => Some(Op::Exec(s.to_string(), parse_stmt(rest)?)),
+        _ => None,
+    }
+}
+
+fn parse_case(line: &str) -> Option<(Setup, Vec<Op>)> {
+    let body = line.trim().strip_prefix("vac ")?;
+    let (setup, ops) = body.split_once('|')?;
+    let setup = parse_setup(setup)?;
+    let mut out = Vec::new();
+    let ops = ops.trim();
+    if !ops.is_empty() {
+        for o in ops.split(" ; ") {
+            out.push(parse_op(o)?);
+        }
+    }
+    Some((setup, out))
+}
+
+/// `cycles rows=<n> cycles=<c> reopen=<k> how=auto|sess|batch|rbk`
+struct Cycles {
+    rows: i64,
+    cycles: i64,
+    reopen: i64, // 0 = never, k = reopen after every k-th cycle
+    how: String,
+}
+
+fn parse_cycles(line: &str) -> Option<Cycles> {
+    let body = line.trim().strip_prefix("cycles ")?;
+    let mut c = Cycles { rows: 0, cycles: 0, reopen: 0, how: String::new() };
+    let num = |s: &str| -> Option<i64> {
+        let n: i64 = s.parse().ok()?;
+        if n.to_string() != s || n < 0 || n > 100_000 { None } else { Some(n) }
+    };
+    let ws: Vec<&str> = body.split_whitespace().collect();
+    if ws.len() != 4 {
+        return None;
+    }
+    c.rows = num(ws[0].strip_prefix("rows=")?)?;
+    c.cycles = num(ws[1].strip_prefix("cycles=")?)?;
+    c.reopen = num(ws[2].strip_prefix("reopen=")?)?;
+    c.how = ws[3].strip_prefix("how=")?.to_string();
+    if !matches!(c.how.as_str(), "auto" | "sess" | "batch" | "rbk") || c.rows < 1 || c.rows > 2000 || c.cycles < 1 || c.cycles > 200 {
+        return None;
+    }
+    Some(c)
+}
+
+// ------------------------------------------------------------------------------------------------ SQL text
+
+fn sql_val(v: &Val) -> String {
+    match v {
+        Val::Int(n) => n.to_string(),
+        Val::Null => "NULL".into(),
+        Val::Text(s) => format!("'{}'", s),
+    }
+}
+
+fn sql_pred(p: &Option<Pred>) -> String {
+    match p {
+        None => String::new(),
+        Some(p) => {
+            let op = match p.op.as_str() {
+                "eq" => "=",
+                "ne" => "<>",
+                "lt" => "<",
+                "le" => "<=",
+                "gt" => ">",
+                _ => ">=",
+            };
+            format!(" WHERE {} {} {}", p.col, op, sql_val(&p.val))
+        }
+    }
+}
+
+fn sql_of(s: &Stmt) -> String {
+    match s {
+        Stmt::Sel { table, pred } => format!("SELECT * FROM {}{}", table, sql_pred(pred)),
+        Stmt::Del { table, pred } => format!("DELETE FROM {}{}", table, sql_pred(pred)),
+        Stmt::Upd { table, col, add, val, pred } => {
+            if *add {
+                format!("UPDATE {} SET {} = {} + {}{}", table, col, col, sql_val(val), sql_pred(pred))
+            } else {
+                format!("UPDATE {} SET {} = {}{}", table, col, sql_val(val), sql_pred(pred))
+            }
+        }
+        Stmt::Ins { table, rows } => {
+            let rs: Vec<String> =
+                rows.iter().map(|r| format!("({})", r.iter().map(sql_val).collect::<Vec<_>>().join(", "))).collect();
+            format!("INSERT INTO {} VALUES {}", table, rs.join(", "))
+        }
+    }
+}
+
+fn sql_create(t: &Table) -> String {
+    let mut cols: Vec<String> = Vec::new();
+    let mut uniq: Vec<String> = Vec::new();
+    for c in &t.cols {
+        let ty = match c.ty.as_str() {
+            "big" => "BIGINT",
+            "int" => "INT",
+            _ => "TEXT",
+        };
+        cols.push(format!("{} {}{}", c.name, ty, if c.not_null { " NOT NULL" } else { "" }));
+        if c.unique {
+            uniq.push(format!("UNIQUE({})", c.name));
+        }
+    }
+    cols.extend(uniq);
+    format!("CREATE TABLE {} ({})", t.name, cols.join(", "))
+}
+
+// ------------------------------------------------------------------------------------------------ execution
+
+/// Error classes, read off the `Display` prefix (every error crosses the task runner as a string).
+fn err_class(msg: &str) -> &'static str {
+    let m = msg.to_ascii_lowercase();
+    if m.contains("conflict") {
+        "conflict"
+    } else if m.contains("constraint validation error") || m.contains("unique") || m.contains("not null") || m.contains("null constraint") {
+        "constraint"
+    } else if m.contains("not found") || m.contains("does not exist") || m.contains("notfound") {
+        "notfound"
+    } else if m.contains("type error") || m.contains("cast") || m.contains("type mismatch") || m.contains("datatype") {
+        "type"
+    } else {
+        "other"
+    }
+}
+
+fn show_dt(d: &DataType) -> String {
+    match d {
+        DataType::Null => "null".into(),
+        DataType::Int(v) => v.value().to_string(),
+        DataType::BigInt(v) => v.value().to_string(),
+        DataType::UInt(v) => v.value().to_string(),
+        DataType::BigUInt(v) => v.value().to_string(),
+        DataType::Blob(b) => format!("'{}'", String::from_utf8_lossy(b.data().unwrap_or(&[]))),
+        other => format!("?{:?}", other),
+    }
+}
+
+fn show_result(r: Result<QueryResult, String>, is_read: bool, diag: &mut Vec<String>) -> String {
+    match r {
+        Ok(QueryResult::Rows(rows)) => {
+            let mut out: Vec<String> =
+                rows.iterrows().map(|r| r.iter().map(show_dt).collect::<Vec<_>>().join(",")).collect();
+            out.sort();
+            format!("[{}]", out.join(";"))
+        }
+        Ok(QueryResult::RowsAffected(n)) => {
+            if is_read { format!("?affected{}", n) } else { format!("ok{}", n) }
+        }
+        Ok(QueryResult::Ddl(_)) => "ddl".into(),
+        Err(e) => {
+            diag.push(e.chars().filter(|c| *c != '\n').take(100).collect());
+            err_class(&e).to_string()
+        }
+    }
+}
+
+static COUNTER: AtomicU64 = AtomicU64::new(0);
+
+fn scratch() -> std::path::PathBuf {
+    let dir = std::env::temp_dir().join(format!("axv-vac-{}-{}", std::process::id(), COUNTER.fetch_add(1, Ordering::SeqCst)));
+    let _ = std::fs::remove_dir_all(&dir);
+    std::fs::create_dir_all(&dir).unwrap();
+    dir
+}
+
+fn run_case(line: &str) -> String {
+    if line.trim().starts_with("cycles ") {
+        let Some(c) = parse_cycles(line) else { return "bad-op".into() };
+        let dir = scratch();
+        let out = run_cycles(&dir, &c);
+        let _ = std::fs::remove_dir_all(&dir);
+        return out;
+    }
+    let Some((setup, ops)) = parse_case(line) else { return "bad-op".into() };
+    {
+        let mut names: Vec<&str> = setup.tables.iter().map(|t| t.name.as_str()).collect();
+        names.sort();
+        if names.windows(2).any(|w| w[0] == w[1]) {
+            return "bad-setup".into();
+        }
+    }
+    let dir = scratch();
+    let out = run_in(&dir, &setup, &ops);
+    let _ = std::fs::remove_dir_all(&dir);
+    out
+}
+
+fn select_all(db: &Database, setup: &Setup, diag: &mut Vec<String>) -> Vec<String> {
+    setup
+        .tables
+        .iter()
+        .map(|t| {
+            let r = db.execute(&format!("SELECT * FROM {}", t.name)).map_err(|e| e.to_string());
+            format!("{}={}", t.name, show_result(r, true, diag))
+        })
+        .collect()
+}
+
+fn phys(db: &Database, path: &std::path::Path) -> String {
+    let pages = db.pager().read().total_allocated_pages();
+    let bytes = std::fs::metadata(path).map(|m| m.len()).unwrap_or(0);
+    format!("pages={} file={}", pages, bytes)
+}
+
+fn run_in(dir: &std::path::Path, setup: &Setup, ops: &[Op]) -> String {
+    let path = dir.join("db.axm");
+    let mut db = match Database::create(&path, DBConfig::default()) {
+        Ok(d) => d,
+        Err(e) => return format!("create-failed ## {}", e),
+    };
+    let mut diag: Vec<String> = Vec::new();
+    for t in &setup.tables {
+        if let Err(e) = db.execute(&sql_create(t)) {
+            return format!("bad-setup ## {}", e);
+        }
+    }
+    if !setup.fresh {
+        let _ = db.execute("CREATE TABLE warmupzz (k BIGINT)");
+    }
+    for (t, vals) in &setup.rows {
+        let s = Stmt::Ins { table: t.clone(), rows: vec![vals.clone()] };
+        if let Err(e) = db.execute(&sql_of(&s)) {
+            return format!("bad-setup ## {}", e);
+        }
+    }
+    let mut sessions: BTreeMap<String, Session> = BTreeMap::new();
+    // sessions that were open when a VACUUM ran: VACUUM aborts their transactions, so every later operation on them
+    // must fail (`nosession`, whatever the error); an answer is a property failure
+    let mut killed: BTreeSet<String> = BTreeSet::new();
+    let mut outs: Vec<String> = Vec::new();
+    for op in ops {
+        let o = match op {
+            Op::Begin(s) => {
+                killed.remove(s);
+                sessions.remove(s);
+                match db.session() {
+                    Ok(x) => {
+                        sessions.insert(s.clone(), x);
+                        "ok".to_string()
+                    }
+                    Err(e) => err_class(&e.to_string()).to_string(),
+                }
+            }
+            Op::Commit(s) => match sessions.get_mut(s) {
+                None => "nosession".into(),
+                Some(x) => {
+                    let r = x.commit_transaction();
+                    let was_killed = killed.remove(s);
+                    let o = match r {
+                        Ok(()) => if was_killed { "PROPFAIL-killed-session-committed".to_string() } else { "ok".to_string() },
+                        Err(e) => {
+                            diag.push(e.to_string().chars().take(100).collect());
+                            if was_killed { "nosession".to_string() } else { err_class(&e.to_string()).to_string() }
+                        }
+                    };
+                    sessions.remove(s);
+                    o
+                }
+            },
+            Op::Rollback(s) => match sessions.get_mut(s) {
+                None => "nosession".into(),
+                Some(x) => {
+                    let r = x.abort_transaction();
+                    let was_killed = killed.remove(s);
+                    let o = match r {
+                        _ if was_killed => "nosession".to_string(),
+                        Ok(()) => "ok".to_string(),
+                        Err(e) => {
+                            diag.push(e.to_string().chars().take(100).collect());
+                            err_class(&e.to_string()).to_string()
+                        }
+                    };
+                    sessions.remove(s);
+                    o
+                }
+            },
+            Op::Drop(s) => match sessions.remove(s) {
+                None => "nosession".into(),
+                Some(x) => {
+                    drop(x);
+                    if killed.remove(s) { "nosession".into() } else { "ok".into() }
+                }
+            },
+            Op::Exec(s, st) => match sessions.get_mut(s) {
+                None => "nosession".into(),
+                Some(x) => {
+                    let r = x.execute(&sql_of(st)).map_err(|e| e.to_string());
+                    if killed.contains(s) {
+                        match r {
+                            Err(e) => {
+                                diag.push(e.chars().filter(|c| *c != '\n').take(100).collect());
+                                "nosession".to_string()
+                            }
+                            ok => format!("PROPFAIL-killed-session-answered({})", show_result(ok, matches!(st, Stmt::Sel { .. }), &mut diag)),
+                        }
+                    } else {
+                        show_result(r, matches!(st, Stmt::Sel { .. }), &mut diag)
+                    }
+                }
+            },
+            Op::Auto(st) => {
+                let r = db.execute(&sql_of(st)).map_err(|e| e.to_string());
+                show_result(r, matches!(st, Stmt::Sel { .. }), &mut diag)
+            }
+            Op::Batch(sts) => {
+                let sqls: Vec<String> = sts.iter().map(sql_of).collect();
+                let refs: Vec<&str> = sqls.iter().map(|s| s.as_str()).collect();
+                match db.execute_batch(&refs) {
+                    Ok(rs) => {
+                        let parts: Vec<String> = rs
+                            .into_iter()
+                            .zip(sts.iter())
+                            .map(|(r, st)| show_result(Ok(r), matches!(st, Stmt::Sel { .. }), &mut diag))
+                            .collect();
+                        format!("batch({})", parts.join(" "))
+                    }
+                    Err(e) => {
+                        diag.push(e.to_string().chars().take(100).collect());
+                        format!("batch-{}", err_class(&e.to_string()))
+                    }
+                }
+            }
+            Op::Vac => match db.vacuum() {
+                Ok(_) => {
+                    killed.extend(sessions.keys().cloned());
+                    diag.push(phys(&db, &path));
+                    "vac".to_string()
+                }
+                Err(e) => {
+                    diag.push(e.to_string().chars().take(100).collect());
+                    format!("vac-{}", err_class(&e.to_string()))
+                }
+            },
+            Op::VacChk => {
+                let before = select_all(&db, setup, &mut diag);
+                match db.vacuum() {
+                    Ok(_) => {
+                        killed.extend(sessions.keys().cloned());
+                        let after = select_all(&db, setup, &mut diag);
+                        diag.push(phys(&db, &path));
+                        if before == after {
+                            "vac(same)".to_string()
+                        } else {
+                            format!("PROPFAIL-vac-changed({}->{})", before.join(","), after.join(","))
+                        }
+                    }
+                    Err(e) => {
+                        diag.push(e.to_string().chars().take(100).collect());
+                        format!("vac-{}", err_class(&e.to_string()))
+                    }
+                }
+            }
+            Op::Reopen => {
+                sessions.clear();
+                killed.clear();
+                drop(db);
+                match Database::open(&path, DBConfig::default()) {
+                    Ok(d) => {
+                        db = d;
+                        "reopen".to_string()
+                    }
+                    Err(e) => {
+                        outs.push("reopen-failed".into());
+                        return format!("{} ## {}", outs.join(" "), e);
+                    }
+                }
+            }
+        };
+        outs.push(o);
+    }
+    drop(sessions);
+    let fin = select_all(&db, setup, &mut diag);
+    drop(db);
+    let mut line = format!("{} | {}", outs.join(" "), fin.join(" "));
+    if !diag.is_empty() {
+        line.push_str(" ## ");
+        line.push_str(&diag.join(" // "));
+    }
+    line
+}
+
+/// Growth family: `rows` rows, then `cycles` times (UPDATE every row; VACUUM), sizes after every cycle.
+/// `how`: auto = autocommit UPDATE; sess = UPDATE in a session that commits; batch = execute_batch of two half updates;
+/// rbk = additionally a rolled-back UPDATE and a rolled-back INSERT + DELETE in every cycle.
+fn run_cycles(dir: &std::path::Path, c: &Cycles) -> String {
+    let path = dir.join("db.axm");
+    let mut db = match Database::create(&path, DBConfig::default()) {
+        Ok(d) => d,
+        Err(e) => return format!("create-failed ## {}", e),
+    };
+    if let Err(e) = db.execute("CREATE TABLE t (k BIGINT, v INT)") {
+        return format!("bad-setup ## {}", e);
+    }
+    let mut k = 1;
+    while k <= c.rows {
+        let hi = (k + 49).min(c.rows);
+        let vals: Vec<String> = (k..=hi).map(|i| format!("({}, {})", i, 0)).collect();
+        if let Err(e) = db.execute(&format!("INSERT INTO t VALUES {}", vals.join(", "))) {
+            return format!("bad-setup ## {}", e);
+        }
+        k = hi + 1;
+    }
+    let mut sizes: Vec<(u64, u64)> = Vec::new();
+    let mut diag: Vec<String> = Vec::new();
+    for i in 1..=c.cycles {
+        let r: Result<(), String> = (|| {
+            match c.how.as_str() {
+                "sess" => {
+                    let mut s = db.session().map_err(|e| e.to_string())?;
+                    s.execute("UPDATE t SET v = v + 1").map_err(|e| e.to_string())?;
+                    s.commit_transaction().map_err(|e| e.to_string())?;
+                }
+                "batch" => {
+                    let half = c.rows / 2;
+                    let a = format!("UPDATE t SET v = v + 1 WHERE k <= {}", half);
+                    let b = format!("UPDATE t SET v = v + 1 WHERE k > {}", half);
+                    db.execute_batch(&[a.as_str(), b.as_str()]).map_err(|e| e.to_string())?;
+                }
+                _ => {
+                    db.execute("UPDATE t SET v = v + 1").map_err(|e| e.to_string())?;
+                }
+            }
+            if c.how == "rbk" {
+                let mut s = db.session().map_err(|e| e.to_string())?;
+                s.execute(&format!("INSERT INTO t VALUES ({}, {})", 100_000 + i, 7)).map_err(|e| e.to_string())?;
+                s.abort_transaction().map_err(|e| e.to_string())?;
+            }
+            Ok(())
+        })();
+        if let Err(e) = r {
+            return format!("cycle-failed {} {} ## {}", i, err_class(&e), e.chars().take(120).collect::<String>());
+        }
+        if let Err(e) = db.vacuum() {
+            return format!("vac-failed {} {} ## {}", i, err_class(&e.to_string()), e);
+        }
+        let pages = db.pager().read().total_allocated_pages();
+        let bytes = std::fs::metadata(&path).map(|m| m.len()).unwrap_or(0);
+        sizes.push((pages, bytes));
+        if c.reopen > 0 && i % c.reopen == 0 {
+            drop(db);
+            db = match Database::open(&path, DBConfig::default()) {
+                Ok(d) => d,
+                Err(e) => return format!("reopen-failed {} ## {}", i, e),
+            };
+        }
+    }
+    // content: every row updated exactly `cycles` times
+    let r = db.execute("SELECT * FROM t").map_err(|e| e.to_string());
+    let content = match r {
+        Ok(QueryResult::Rows(rows)) => {
+            let mut n = 0i64;
+            let mut bad = 0i64;
+            for row in rows.iterrows() {
+                n += 1;
+                let v = row.iter().nth(1).map(show_dt).unwrap_or_default();
+                if v != c.cycles.to_string() {
+                    bad += 1;
+                }
+            }
+            format!("rows={} wrong={}", n, bad)
+        }
+        Ok(_) => "rows=?".to_string(),
+        Err(e) => {
+            diag.push(e.chars().take(100).collect());
+            format!("select-{}", err_class(&e))
+        }
+    };
+    // probe: the database is still usable
+    let probe = match db.execute("INSERT INTO t VALUES (999999, 1)").and_then(|_| db.execute("DELETE FROM t WHERE k = 999999")) {
+        Ok(QueryResult::RowsAffected(1)) => "probe=ok".to_string(),
+        Ok(_) => "probe=?".to_string(),
+        Err(e) => format!("probe-{}", err_class(&e.to_string())),
+    };
+    drop(db);
+    diag.push(format!("sizes={}", sizes.iter().map(|(p, b)| format!("{}/{}", p, b)).collect::<Vec<_>>().join(",")));
+    // bounded: from cycle 10 on nothing is larger than after cycle 3 plus a small constant (2 pages)
+    let verdict = if sizes.len() >= 10 {
+        let page = if sizes[2].0 > 0 { sizes[2].1 / sizes[2].0.max(1) } else { 4096 };
+        let (p3, b3) = sizes[2];
+        let worst = sizes[9..].iter().fold((0u64, 0u64), |a, x| (a.0.max(x.0), a.1.max(x.1)));
+        if worst.0 <= p3 + 2 && worst.1 <= b3 + 2 * page.max(4096) {
+            "bounded".to_string()
+        } else {
+            format!("PROPFAIL growth cycle3={}/{} max-after-cycle10={}/{}", p3, b3, worst.0, worst.1)
+        }
+    } else {
+        "bounded".to_string()
+    };
+    format!("{} {} {} ## {}", verdict, content, probe, diag.join(" // "))
+}
+
+// ------------------------------------------------------------------------------------------------ generation
 
 impl Engine for VacuumEngine {
     fn gen_cases(&self, _rng: &mut Rng, _tier: Tier) -> Vec<Case> {
         Vec::new()
     }
-    fn exec(&mut self, _line: &str) -> String {
-        "unimplemented".into()
+    fn exec(&mut self, line: &str) -> String {
+        run_case(line)
+    }
+    fn timeout_ms(&self) -> u64 {
+        180_000
     }
 }
 
